@@ -5,7 +5,8 @@ leg 0  tla/ods/OdsTable.tla (Ideal from the statement; ReadRow/ReadTable/GetRang
        run alphabet of the profile; invariants Refines (AsIs = Ideal for values and formulas),
        ColsAgree, PendingOnlyEmpty, Incremental.  MC_OdsTable_asis.cfg keeps the algorithm as
        pinned (full-width padding of interior blank rows) and MUST be refuted (self-test of the
-       model's ability to see the repaired defect, commit 3c840c3 in /repo).
+       model's ability to see the repaired defect, commit 3c840c3 in /repo); MC_OdsTable_asis_ws.cfg
+       likewise keeps the reader that does not ignore whitespace-only text nodes (commit de15aef).
 leg 1  every table printed by TLC -> real .ods (harness/src/build/ods.rs) -> calamine::Ods ->
        worksheet_range / worksheet_formula / get_value compared with Ideal; the model's reader
        state is also fed to the internal get_range (calamine::verif::ods_get_range).
@@ -22,11 +23,13 @@ sensitivity:  s/row_max = row_max + empty_row_repeats - consecutive_empty_rows;/
 sensitivity:  s/new_cells.extend_from_slice(&row\\[col_min..=col_max\\]);/new_cells.extend_from_slice(\\&row[col_min..col_max]);/  (panics)
 sensitivity:  s/QName(b"office:date-value") => Data::DateTimeIso(attr),/QName(b"office:date-value") => Data::String(attr),/
 sensitivity:  s/if p > col_max {/if p >= col_max + 2 {/
+sensitivity:  s/Ok(Event::Text(ref e)) if is_whitespace(e) => (), \/\/ indentation between cells/Ok(Event::Comment(_)) => (),/
+sensitivity:  s/Ok(Event::Text(ref e)) if paragraph_depth == 0 \&\& is_whitespace(e) => (),/Ok(Event::Comment(_)) => (),/
 """
 LEVEL = "model_checking"
 
-QUICK = ["q_rows", "q_runs", "q_big", "q_types", "q_cols"]
-THOROUGH = ["t_rows", "t_rows4", "t_runs", "t_big", "t_mid", "t_types", "t_cols"]
+QUICK = ["q_rows", "q_runs", "q_big", "q_types", "q_cols", "q_ws", "q_ws2"]
+THOROUGH = ["t_rows", "t_rows4", "t_runs", "t_big", "t_mid", "t_types", "t_cols", "t_ws"]
 
 
 def run(ctx):
@@ -42,18 +45,19 @@ def run(ctx):
         "harness glue: harness/src/build/ods.rs writes the tokens 1:1 as XML; projection in props/ods.rs",
         "Vec<T> cells is modelled run-length compressed (value-preserving abstraction of the flat vector)",
         "tables whose bounding rectangle exceeds 2^22 cells are not generated (resource bound)",
+        "whitespace text nodes: between cell elements (any subset of gaps), in front of rows and around text:p; not inside text:p",
         "not generated: string cells with empty text, formula cells without cached value, content in covered cells"]
 
-    # self-test: the algorithm as pinned must be refuted by the model
-    a = ctx.tlc("ods", "MC_OdsTable", "MC_OdsTable_asis.cfg", workers=2, timeout=300, xmx="2g",
-                allow_violation=True)
-    ctx.states -= a["distinct"]
-    ctx.transitions -= a["generated"]
-    ctx.extra["asis_model_refuted"] = bool(a["violated"])
-    if not a["violated"]:
-        ctx.fail("selftest:asis-model-not-refuted",
-                 {"kind": "selftest", "info": "MC_OdsTable_asis.cfg (full-width padding) was not refuted",
-                  "tlc_output": a["out"]})
+    # self-test: the algorithms as pinned must be refuted by the model
+    for cfg, what in (("MC_OdsTable_asis.cfg", "full-width padding of interior blank rows"),
+                      ("MC_OdsTable_asis_ws.cfg", "whitespace text nodes not ignored")):
+        a = ctx.tlc("ods", "MC_OdsTable", cfg, workers=2, timeout=300, xmx="2g", allow_violation=True)
+        ctx.states -= a["distinct"]
+        ctx.transitions -= a["generated"]
+        ctx.extra["refuted:" + cfg] = bool(a["violated"])
+        if not a["violated"]:
+            ctx.fail("selftest:asis-model-not-refuted",
+                     {"kind": "selftest", "info": "%s (%s) was not refuted" % (cfg, what), "tlc_output": a["out"]})
 
     per = {}
     for prof in ctx.pick(QUICK, THOROUGH):
